@@ -108,12 +108,12 @@ Section Spec.
     | [], [] => true
     | o :: ops', x :: outs' =>
         match o with
-        | Authorize _ q =>
+        | Authorize _ q _ =>
             (if must_page q then is_page x else true)
             && target_ok (q_client q) (candidates q) (q_rt q) x && login_ok q x
             && spec_hist (if is_login x then created ++ [(q_client q, candidates q, q_rt q)] else created) ops' outs'
         | Login _ => spec_hist created ops' outs'
-        | Callback _ k _ =>
+        | Callback _ k _ _ =>
             match match k with Some k => nth_error created k | None => None end with
             | Some (cid, u, rt) => target_ok cid u rt x && negb (is_login x)
             | None => no_redirect x
@@ -160,7 +160,7 @@ Definition out_eqb (a b : out) : bool :=
   | OLogin p, OLogin p' => String.eqb p p'
   | ORedirect f c t, ORedirect f' c' t' => Bool.eqb f f' && String.eqb c c' && String.eqb t t'
   | OForm t, OForm t' => String.eqb t t'
-  | OFormBlocked, OFormBlocked | ONone, ONone | OPanic, OPanic | OOther, OOther => true
+  | OFormBlocked, OFormBlocked | OUndelivered, OUndelivered | ONone, ONone | OPanic, OPanic | OOther, OOther => true
   | _, _ => false
   end.
 
@@ -179,7 +179,7 @@ Definition out_class (x : out) : nat :=
   | OPage _ _ => 0 | ONone => 0
   | OLogin _ => 1
   | ORedirect _ c _ => if String.eqb c "" then 3 else 2
-  | OForm _ => 4 | OFormBlocked => 5 | OPanic => 6 | OOther => 7
+  | OForm _ => 4 | OFormBlocked => 5 | OPanic => 6 | OOther => 7 | OUndelivered => 8
   end.
 
 Definition path (i : input) (o : observed) : nat :=
